@@ -41,10 +41,16 @@ CHECKS = {
          "Every sequence up to the length bound of next/next_by/clone/subscribe/unsubscribe/complete/error is executed; every probe trace and peek() of every handle are compared with the model after every operation. (The two-producer race is served by engine E2 once built.)", "5/C12"),
  "C13": ([E1], "bounded-exhaustive enumeration of cloneable operator chains x cold scripts with repeated and nested subscriptions of clones, counting closure/iterator/tap calls",
          "Every chain up to the depth bound of cloneable operators over every cold source and script is built (counters must stay 0), subscribed three times through clones and once more from inside a callback; traces must be identical and equal to the list model, per-subscription work identical, source closures exactly once.", "5/C13"),
+ "C14": ([E1], "bounded-exhaustive enumeration of source scripts x every placement of polls on the real to_future/to_stream/collect/complete_status with a counting waker",
+         "Every sequence up to the length bound of next/complete/error/poll is executed against each conversion; every poll result, waker wake-up and status flag is compared with the documented outcome, and after the source's terminal the conversion must be ready. (The producer/waiter thread race is served by engine E2 once built.)", "5/C14"),
  "C15": ([E1], "bounded-exhaustive enumeration of terminal/unsubscribe sequences on the real finalize operators with an invocation counter",
          "Every sequence up to the length bound of next/complete/error/unsubscribe (terminals through cloned handles) on four pipeline shapes in both forms; the finalizer counter must be 0 before the first trigger and exactly 1 from the return of the triggering call on. (The terminating-vs-unsubscribing thread race is served by engine E2 once built.)", "5/C15"),
+ "C16": ([E1], "bounded-exhaustive enumeration of producer x intermediate-stage x cutter pipelines (and producers in second-input position) on the real operators under a virtual clock, with pull/emission counters and an idle-pool check",
+         "Every producer (interval, interval_at, from_iter, from_stream, timer, operator-owned tickers) under every stage sequence up to the depth bound and every early-terminating operator, as main and as second input of every two-input operator, in both forms: after the subscriber's terminal at most one more pull/emission happens and the pool is idle (no ready task, no live timer) within one period + 2 ticks.", "5/C16"),
  "C17": ([E1], "bounded-exhaustive enumeration of pipelines x action histories with is_closed() sampled after every action, plus operation sequences on composite subscriptions over controllable children",
          "The C01 pipeline set (every subscription type) is driven through every action history with unsubscribe at every position and is_closed() sampled after each action: never true then false, nothing delivered after true; every sequence of append/child-finishes/retain/clone/unsubscribe on MultiSubscription(+Threads) and ZipSubscription.", "5/C17"),
+ "C18": ([E1], "bounded-exhaustive differential execution of every generated pipeline in its all-local and all-thread-safe instantiation over the same action histories",
+         "The C01 pipeline set is built twice from the same AST (local types vs *_threads / *Threads types) and both instances are driven through every action history up to the length bound; traces must be identical after every action.", "5/C18"),
  "C19": ([E1], "bounded-exhaustive enumeration of task sets x cancellation points x run orders x clock advances on the real scheduler (LocalSpawner) behind a gate",
          "Sets of 1-3 tasks of every task type with every delay are scheduled on the real LocalSpawner implementation; every sequence of cancel/resolve/tick/jump/run-in-any-order up to the length bound is executed and run counters, times, sequence numbers, cancellation and is_closed() are checked after every action.", "5/C19"),
  "C20": ([E1], "bounded-exhaustive enumeration of input scripts x key functions on the real group_by with a probe attached to every group at announcement",
